@@ -250,12 +250,16 @@ Proof.
   destruct r; inversion E; subst; first [apply evolves_refl|rv].
 Qed.
 
-Lemma rview_body_begin sd t r c w : rview (body_begin P sd t r c w) = rview w.
+Lemma rview_body_sample sd t r c w : rview (body_sample P sd t r c w) = rview w.
 Proof.
-  unfold body_begin. pose proof (rview_sample_readers sd (xsys_of P t) w) as H1.
+  unfold body_sample. pose proof (rview_sample_readers sd (xsys_of P t) w) as H1.
   destruct (sample_readers sd (xsys_of P t) w) as [sm w1]. cbn [snd] in H1.
   destruct (sm_l sm) as [[src [v|]]|]; try exact H1. destruct (xsys_of P t) as [[x ?]|]; exact H1.
 Qed.
+Lemma rview_state_bump t w : rview (state_bump t w) = rview w.
+Proof. unfold state_bump. destruct (alookup t (cbs w)); reflexivity. Qed.
+Lemma rview_body_begin sd t r c w : rview (body_begin P sd t r c w) = rview w.
+Proof. unfold body_begin. rewrite rview_state_bump. apply rview_body_sample. Qed.
 End Steps.
 
 (* ================================================================================================================ *)
@@ -477,12 +481,15 @@ Proof.
   - intros t w H. apply sa_despawn. exact H.
   - intros t cb b w H _. sv H.
   - intros t tk w H. unfold once_finish. destruct (alookup t (cbs w)); [sv H|exact H].
-  - intros sd t r c w H. unfold body_begin.
-    assert (H1 : sview (snd (sample_readers sd (xsys_of P t) w)) = sview w).
-    { unfold sample_readers. pose proof (sview_take_sysevents TYPES w) as HT. destruct (sd_take sd); [destruct (take_sysevents TYPES w); exact HT|reflexivity]. }
-    destruct (sample_readers sd (xsys_of P t) w) as [sm w1]. cbn [snd] in H1.
-    assert (H2 : storage_alive w1) by (eapply sa_sview; [exact H1|exact H]).
-    destruct (sm_l sm) as [[src [v|]]|]; try (sv H2). destruct (xsys_of P t) as [[x ?]|]; sv H2.
+  - intros sd t r c w _ H. unfold body_begin.
+    assert (H0 : storage_alive (body_sample P sd t r c w)).
+    { unfold body_sample.
+      assert (H1 : sview (snd (sample_readers sd (xsys_of P t) w)) = sview w).
+      { unfold sample_readers. pose proof (sview_take_sysevents TYPES w) as HT. destruct (sd_take sd); [destruct (take_sysevents TYPES w); exact HT|reflexivity]. }
+      destruct (sample_readers sd (xsys_of P t) w) as [sm w1]. cbn [snd] in H1.
+      assert (H2 : storage_alive w1) by (eapply sa_sview; [exact H1|exact H]).
+      destruct (sm_l sm) as [[src [v|]]|]; try (sv H2). destruct (xsys_of P t) as [[x ?]|]; sv H2. }
+    unfold state_bump. destruct (alookup t (cbs (body_sample P sd t r c w))); [sv H0|exact H0].
   - intros w H. sv H.
 Qed.
 
@@ -843,10 +850,10 @@ Proof.
     destruct HP as (HI & Hincl & Hh & Hc). change (default_post A B w w').
     assert (Hpre : default_pre A B w) by exact (conj HI (conj Hincl (conj Hh Hc))).
     cbn zeta in E. set (sd := sys_or_default P t) in *.
-    destruct (negb (fresh_claim_b t w)); [discriminate E|].
+    destruct (body_guard t runno captured w) eqn:EG; [|discriminate E]. cbn [negb] in E.
     assert (Hev0 : evolves w (body_begin P sd t runno captured w)) by (apply evolves_rview; apply rview_body_begin).
     assert (Hb : default_pre A B (body_begin P sd t runno captured w)).
-    { apply (PreR_step A B w); [eapply (c_body _ _ (sa_closed P)); exact (ic_alive _ _ HI)|exact Hev0|exact Hpre]. }
+    { apply (PreR_step A B w); [eapply (c_body _ _ (sa_closed P)); [exact EG|exact (ic_alive _ _ HI)]|exact Hev0|exact Hpre]. }
     eapply default_post_step; [exact Hev0|].
     destruct (sd_kind sd).
     + destruct (acts P (OSys t runno) 0 (script_of P t runno) (body_begin P sd t runno captured w)) as [w1 cs] eqn:EA.
